@@ -508,6 +508,7 @@ def exhaustive_lanes(actual, expected, argspecs, names, lane_bits, env_ok=None, 
     vec_args = {k for k, (b, lb, d) in enumerate(argspecs) if lb and b // lb == nl and nl > 1}
     done = {}
     points = 0
+    spent = [0]
     for i in range(n):
         ta = T.slice_(actual, i * lane_bits, lane_bits)
         te = T.slice_(expected, i * lane_bits, lane_bits)
@@ -533,9 +534,10 @@ def exhaustive_lanes(actual, expected, argspecs, names, lane_bits, env_ok=None, 
         szl = max(1, (T.size(ta) + T.size(te)) // 8)
         for v in range(1 << len(order)):
             if (v & 255) == 0:
-                try:
-                    T.work(256 * szl)
-                except T.TooBig:
+                # the truth table is complete, so it gets its own (deterministic) allowance instead of
+                # competing with summarisation and the heuristic search for the instance budget
+                spent[0] += 256 * szl
+                if spent[0] > 2500000:
                     return None, "work budget"
             args = [0] * nargs
             for j, (k, b) in enumerate(order):
